@@ -25,7 +25,7 @@ TIERS = {"quick": 12000, "thorough": 600000}
 BATCH = 100
 OP_WALL = 60
 NO_MINIMISE = {"hang"}
-RULE = ("one evaluation = one generated history (2-3 client sessions, up to 30 ops over a shared pool of series in 8 representations, shared containers, "
+RULE = ("one evaluation = one generated history (2-3 client sessions, up to 30 ops over a shared pool of series in 8 representations (13 for integer-valued histories: + int list, int64, float32, array 'l' / 'f'), shared containers, "
         "shared option dicts and long-lived model objects; ops: distance(_fast), warping_paths(_fast), warping_path(_fast), best_path, warp, lb_keogh, "
         "ub_euclidean, ed.distance(_fast), the same routines on caller buffers refilled in place between calls, distance_matrix (serial, blocks, compact), dtw_ndim twins, dba_loop (Python, C), SubsequenceSearch, "
         "SubsequenceAlignment, LocalConcurrences, Hierarchical, KMeans). Distinct = distinct (op kind, session) sequences; non-trivial = at least two "
@@ -33,7 +33,8 @@ RULE = ("one evaluation = one generated history (2-3 client sessions, up to 30 o
 COMPONENTS = {"real": ["dtw.py, dtw_ndim.py, ed.py, dtw_barycenter.py, util.py (SeriesContainer), util_numpy.py", "dtw_cc / ed_cc (C engine)",
                        "subsequence/*.py, clustering/hierarchical.py, clustering/kmeans.py (as long-lived objects on the shared pool)"],
               "stub": ["client sessions and their interleaving (seeded scheduler)", "twins: the same call in a fresh context (same representations) and on canonical contiguous copies"]}
-ASSUMPTIONS = ["bounds: mostly 3..6 series of length 2..8 (one history in 12: 7..12 series of length 9..24; one in ~40: 3..6 series of 130..190 samples, C engine only), 2..3 bivariate series, histories <= 30 ops",
+ASSUMPTIONS = ["one history in four holds integer-valued series and then also uses integer / float32 containers of the same numbers (lists of ints, int64 and float32 ndarrays, array.array 'l' and 'f'); float32 kinds are compared with rel. tol 1e-5 and are never handed to long-lived model objects",
+               "bounds: mostly 3..6 series of length 2..8 (one history in 12: 7..12 series of length 9..24; one in ~40: 3..6 series of 130..190 samples, C engine only), 2..3 bivariate series, histories <= 30 ops",
                "container independence is compared with rel. tol 1e-9 (Python 3.12 sums Python floats with compensation but NumPy scalars without: list and ndarray inputs differ in the last bit); history independence is compared bit for bit",
                "multi-iteration Python-engine averaging (dba_loop with max_it > 1, KMeans with use_c=False) can amplify that last bit through a tie between warping paths: for those ops the canonical twin keeps the scalar class of the items (plain lists for list / array.array items, contiguous ndarrays otherwise)", "a call that RAISES for a container kind it does not accept (plain lists handed to the C entry points, ...) is permitted if inputs stay untouched and "
                "the fresh same-representation twin raises the same way; a call that RETURNS must return the canonical value",
@@ -41,6 +42,8 @@ ASSUMPTIONS = ["bounds: mostly 3..6 series of length 2..8 (one history in 12: 7.
                "KMeans is seeded through the public generators; parallel=False everywhere (parallel routes are C07 / C16)"]
 
 REPS = ["list", "tuple", "array", "nd", "strided", "neg", "col", "row", "ovl"]
+INT_REPS = ["intlist", "i64", "arr_l", "f32", "arr_f"]      # integer-valued histories only; float32 kinds last (never handed to model objects)
+F32_TOL = 1e-5       # a float32 container computes in float32 where the Python engine lets NumPy do the arithmetic: that rounding is the caller's choice
 NREPS = ["nd", "lists", "fortran", "strided"]
 PAIR_FNS = ["distance", "distance", "distance_fast", "lb_keogh", "ub_euclidean", "ed_distance", "ed_distance_fast", "warping_paths", "warping_paths_fast",
             "warping_path", "warping_path_fast", "warp", "best_path"]
@@ -56,10 +59,13 @@ def gen_history(st):
     m = 7 + rng.below(6) if big else 3 + rng.below(4)
     equal = rng.below(2) == 0
     L0 = (130 + rng.below(60)) if huge else (9 + rng.below(16) if big else 2 + rng.below(7))
+    # one history in four holds integer-valued series only: the same numbers can then also live in integer and float32
+    # containers (lists of Python ints, int64 / float32 ndarrays, array.array('l') / ('f')) without changing their value
+    intvals = (not huge) and rng.below(4) == 0
     series = []
     for i in range(m):
         L = L0 if equal else ((130 + rng.below(60)) if huge else (9 + rng.below(16) if big else 2 + rng.below(7)))
-        series.append([float(rng.below(5)) if rng.below(3) else round(rng.uniform(-2, 4), 2) for _ in range(L)])
+        series.append([float(rng.below(5)) if (intvals or rng.below(3)) else round(rng.uniform(-2, 4), 2) for _ in range(L)])
     overlap = None
     if not huge and rng.below(3) == 0 and m >= 2 and not equal:
         # two series that are overlapping windows of ONE underlying array (rep "ovl" hands out views that share memory)
@@ -94,13 +100,20 @@ def gen_history(st):
         k = 2 + rng.below(m - 1)
         idxs = rng.sample(list(range(m)), k)
         kind = rng.choice(["list_nd", "list_array", "list_views", "list_list", "matrix", "sc_list_nd", "sc_list_views"])
-        if kind == "matrix" and len({len(series[i]) for i in idxs}) != 1:
-            kind = "list_views"
+        if intvals and rng.below(2):
+            kind = rng.choice(["list_i64", "list_intlist", "matrix_i64"])
+        if kind in ("matrix", "matrix_i64") and len({len(series[i]) for i in idxs}) != 1:
+            kind = "list_views" if kind == "matrix" else "list_i64"
         conts.append({"kind": kind, "idxs": idxs, "reps": [rng.choice(REPS[3:]) for _ in idxs]})
-    setup = {"series": series, "nseries": nser, "dicts": dicts, "conts": conts, "overlap": overlap}
+    setup = {"series": series, "nseries": nser, "dicts": dicts, "conts": conts, "overlap": overlap, "intvals": intvals}
 
-    def ref():
+    def ref(f32=True):
+        if intvals and rng.below(3) == 0:
+            return [rng.below(m), rng.choice(INT_REPS if f32 else INT_REPS[:3])]
         return [rng.below(m), rng.choice(REPS)]
+
+    def odtype():
+        return rng.choice([None, None, "f32", "i64"]) if intvals else None
 
     def nref():
         return [rng.below(len(nser)), rng.choice(NREPS)]
@@ -135,16 +148,17 @@ def gen_history(st):
                     rb = rng.below(n); cb = rng.below(n)
                     blk = [[rb, rb + 1 + rng.below(n - rb)], [cb, cb + 1 + rng.below(n - cb)]]
                 programs[s].append({"op": "matrix", "cont": rng.below(len(conts)), "opts": dref(), "use_c": bool(rng.below(2)), "compact": bool(rng.below(2)),
-                                    "block": blk, "fast": rng.below(4) == 0})
+                                    "block": blk, "fast": rng.below(4) == 0, "dtype": odtype()})
             elif k < 28:
-                programs[s].append({"op": "dba", "cont": rng.below(len(conts)), "c": ref(), "use_c": bool(rng.below(2)), "max_it": 1 + rng.below(3), "loop": bool(rng.below(2))})
+                programs[s].append({"op": "dba", "cont": rng.below(len(conts)), "c": ref(), "use_c": bool(rng.below(2)), "max_it": 1 + rng.below(3), "loop": bool(rng.below(2)),
+                                    "dtype": odtype()})
             elif k < 30:
-                programs[s].append({"op": "new_ss", "obj": objs, "q": ref(), "cont": rng.below(len(conts)), "dict": dref(), "use_c": rng.choice([None, False, True]),
+                programs[s].append({"op": "new_ss", "obj": objs, "q": ref(False), "cont": rng.below(len(conts)), "dict": dref(), "use_c": rng.choice([None, False, True]),
                                     "use_lb": bool(rng.below(2))}); objs += 1
             elif k < 32:
-                programs[s].append({"op": "new_sa", "obj": objs, "q": ref(), "s": ref(), "penalty": rng.choice([0.0, 0.1, 1.0]), "use_c": bool(rng.below(2))}); objs += 1
+                programs[s].append({"op": "new_sa", "obj": objs, "q": ref(False), "s": ref(False), "penalty": rng.choice([0.0, 0.1, 1.0]), "use_c": bool(rng.below(2))}); objs += 1
             elif k < 33:
-                programs[s].append({"op": "new_lc", "obj": objs, "a": ref(), "b": ref() if rng.below(2) else None, "dict": dref()}); objs += 1
+                programs[s].append({"op": "new_lc", "obj": objs, "a": ref(False), "b": ref(False) if rng.below(2) else None, "dict": dref()}); objs += 1
             elif k < 35:
                 programs[s].append({"op": "new_hier", "obj": objs, "dict": rng.below(len(dicts)), "use_c": bool(rng.below(2)), "tree": bool(rng.below(2)),
                                     "max_dist": rng.choice(["inf", 2.0, 4.0])}); objs += 1
@@ -216,7 +230,7 @@ class Pool:
             self.bases.append(("overlap-base", base))
             self.ovl = {i0: base[:len(s0)], i1: base[k_:k_ + len(s1)]}
         for i, v in enumerate(setup["series"]):
-            for rep in REPS:
+            for rep in REPS + (INT_REPS if setup.get("intvals") else []):
                 self.items[(i, rep)] = self._make(i, rep, v)
         self.nitems = {}
         for i, v in enumerate(setup["nseries"]):
@@ -236,6 +250,16 @@ class Pool:
             return a
         if rep == "list":
             o = list(v)
+        elif rep == "intlist":
+            o = [int(x) for x in v]
+        elif rep == "i64":
+            o = np.array([int(x) for x in v], dtype=np.int64)
+        elif rep == "f32":
+            o = np.array(v, dtype=np.float32)
+        elif rep == "arr_l":
+            o = array.array("l", [int(x) for x in v])
+        elif rep == "arr_f":
+            o = array.array("f", v)
         elif rep == "tuple":
             o = tuple(v)
         elif rep == "array":
@@ -289,7 +313,7 @@ class Pool:
         from dtaidistance.util import SeriesContainer
         kind = c["kind"]
         if self.canonical:
-            if self.float_class and kind in ("list_list", "list_array"):
+            if self.float_class and kind in ("list_list", "list_array", "list_intlist"):
                 kind = "list_list"
             else:
                 kind = "sc_list_nd" if kind.startswith("sc_") else "list_nd"
@@ -301,12 +325,28 @@ class Pool:
             o = [self.items[(i, r)] for i, r in zip(c["idxs"], c["reps"])]       # aliases the pooled views
         elif kind == "list_list":
             o = [list(self.setup["series"][i]) for i in c["idxs"]]
+        elif kind == "list_i64":
+            o = [np.array([int(x) for x in self.setup["series"][i]], dtype=np.int64) for i in c["idxs"]]
+        elif kind == "list_intlist":
+            o = [[int(x) for x in self.setup["series"][i]] for i in c["idxs"]]
+        elif kind == "matrix_i64":
+            o = np.array([[int(x) for x in self.setup["series"][i]] for i in c["idxs"]], dtype=np.int64)
         else:
             o = np.array([self.setup["series"][i] for i in c["idxs"]], dtype=np.double)
         self.bases.append(("container%d/%s" % (ci, kind), o))
         if kind.startswith("sc_"):
             return SeriesContainer.wrap(o)
         return o
+
+    def typed(self, ci, dtype):
+        """A list of float32 / int64 arrays holding the series of container ci, made for one call (integer-valued histories)."""
+        np = self.np
+        idxs = self.setup["conts"][ci]["idxs"]
+        if self.canonical:
+            return [np.array(self.setup["series"][i], dtype=np.double) for i in idxs]
+        if dtype == "f32":
+            return [np.array(self.setup["series"][i], dtype=np.float32) for i in idxs]
+        return [np.array([int(x) for x in self.setup["series"][i]], dtype=np.int64) for i in idxs]
 
     def refill(self, i, rep, slot):
         """The caller's scratch buffer for series of this length, refilled IN PLACE with series i (same object every time)."""
@@ -497,7 +537,7 @@ def run_op(pool, op, alone):
             if fn == "nub_euclidean":
                 return _norm(dtw_ndim.ub_euclidean(a, b))
         if kind == "matrix":
-            c = pool.conts[op["cont"]]
+            c = pool.conts[op["cont"]] if not op.get("dtype") else pool.typed(op["cont"], op["dtype"])
             o = _opts(pool, op["opts"])
             blk = op["block"]
             n = len(c)
@@ -512,7 +552,7 @@ def run_op(pool, op, alone):
                 r = dtw.distance_matrix(c, block=blk, compact=op["compact"], parallel=False, use_c=op["use_c"], **o)
             return _norm(np.array(r, dtype=np.double) if not isinstance(r, np.ndarray) else r)
         if kind == "dba":
-            c = pool.conts[op["cont"]]
+            c = pool.conts[op["cont"]] if not op.get("dtype") else pool.typed(op["cont"], op["dtype"])
             init = pool.items[tuple(op["c"])]
             if op["loop"]:
                 r = dtw_barycenter.dba_loop(c, c=init, max_it=op["max_it"], thr=0.0001, use_c=op["use_c"])
@@ -589,6 +629,10 @@ def run_op(pool, op, alone):
         if type(exc).__name__ == "ThreadSimError":
             raise            # a failure of the simulator itself is never a result of the code under test
         return ["exc", type(exc).__name__]
+
+
+def _f32(op):
+    return op.get("dtype") == "f32" or any(isinstance(op.get(k), list) and len(op[k]) == 2 and op[k][1] in ("f32", "arr_f") for k in ("a", "b", "c"))
 
 
 def _iterative_python(op, creators):
@@ -753,12 +797,15 @@ def execute(history):
                 if not same_exact(twin, live):
                     add({"class": "history-dependence", "detail": "%s returned %s here, %s when issued alone in a fresh context" % (json.dumps(op)[:200], str(live)[:160], str(twin)[:160])}, opi)
                 # 3. container independence: same call on canonical contiguous copies
-                if kind in ("pair", "npair", "matrix", "dba", "refill") and not _is_exc(live):
+                if _f32(op) and _iterative_python(op, creators):
+                    # float32 rounding of the first average can flip a tie in the next iteration (see _iterative_python): not judged
+                    bump("info:f32_iterative_python_not_compared")
+                elif kind in ("pair", "npair", "matrix", "dba", "refill") and not _is_exc(live):
                     canon = Pool(setup, canonical=True, float_class=_iterative_python(op, creators))
                     cres = run_op(canon, op, alone=True)
                     if _is_exc(cres):
                         bump("canonical_raised:" + cres[1])
-                    elif not same_tol(cres, live):
+                    elif not same_tol(cres, live, F32_TOL if _f32(op) else 1e-9):
                         add({"class": "container-dependence", "detail": "%s returned %s on the pooled representation, %s on contiguous copies of the same numbers"
                                                                        % (json.dumps(op)[:200], str(live)[:160], str(cres)[:160])}, opi)
                 elif kind == "use" and not _is_exc(live):
